@@ -25,7 +25,7 @@ TECHNIQUE = ("Lean 4 refinement proofs (hand models of the code paths of every c
              "association list / set, invariants by induction over operation histories) + lock-step correspondence runs of "
              "the real code against the std:: containers and the compiled Lean models under ASan/UBSan, with int and with a "
              "non-trivially-copyable instrumented element type")
-LEVEL_TEXT = ("Machine-checked (Props/C20.lean, 65 theorems, axioms propext/Classical.choice/Quot.sound at most): "
+LEVEL_TEXT = ("Machine-checked (Props/C20.lean, 70 theorems, axioms propext/Classical.choice/Quot.sound at most): "
               "XalanVector - every operation history inside std::vector's preconditions makes no out-of-bounds / raw-cell / "
               "stale-iterator access, yields the std contents and size<=allocation; the three storage primitives are the "
               "placement discipline (construct only cell `size`, assign only below `size`, destroy only the last cell); "
@@ -39,7 +39,9 @@ LEVEL_TEXT = ("Machine-checked (Props/C20.lean, 65 theorems, axioms propext/Clas
               "history of all modelled mutators from both representations of the empty string: invariant (buffer empty or "
               "chars ++ [0], m_size) and std::u16string result. XalanObjectCache - under the release-what-you-hold contract "
               "no object is handed out twice and every object comes back reset. XalanDOMStringPool/HashTable - get returns "
-              "the requested characters, equal requests the same object, pool = distinct strings in first-request order. "
+              "the requested units as a length-carrying sequence (U+0000 included), equal keys the same object, pool = set of "
+              "distinct keys for every history, size() = their number. XalanDOMStringCache - every string is in exactly one "
+              "of busy / available / destroyed after every history; release beyond the bound destroys exactly once. "
               "XalanBitmap - set/clear/toggle change exactly the addressed bit (complete byte table by decide). Event form: "
               "every XalanVector history logs its copy constructions, assignments, destructor calls and buffer releases "
               "(VectorTrace.lean, same code paths, projection theorem) and the log passes the placement discipline - each "
@@ -122,6 +124,11 @@ THEOREMS = [
     "XalanModel.Props.C20.pool_get_refines",
     "XalanModel.Props.C20.pool_get_canonical",
     "XalanModel.Props.C20.pool_new_clear_inv",
+    "XalanModel.Props.C20.pool_step_refines_set",
+    "XalanModel.Props.C20.pool_refines_set",
+    "XalanModel.Props.C20.pool_embedded_nul_examples",
+    "XalanModel.Props.C20.cache_busy_available_partition",
+    "XalanModel.Props.C20.cache_operations",
     "XalanModel.Props.C20.bitmap_refines",
     "XalanModel.Props.C20.bitmap_new",
     "XalanModel.Props.C20.domstring_step_refines",
@@ -158,6 +165,9 @@ CORPUS = [
     ("str", ["str app 0 1.2.3.4", "str substr 1 0 1 npos"]),
     ("str", ["str app 0 1.2.3.4", "str app 1 7", "str appsub 1 0 1 npos"]),
     ("str", ["str eraser 0 0 0"]),
+    ("str", ["str ctor 0 97.98", "str ctor 1 -", "str ctor 0 0.97.98"]),
+    ("pool", ["pool new 0 3", "pool get 0 0.1.2"]),
+    ("pool", ["pool new 0 3", "pool gets 0 0.1.2"]),
     ("str", ["str app 1 5.6", "str assignit 0 1 1 1", "str resize 0 3 7"]),
     ("str", ["str app 0 5.6", "str eraser 0 0 2", "str resize 0 2 8", "str resize 0 0 1", "str resize 0 4 9"]),
     ("map", ["map new 0 3 4 2 3", "map ins 0 1 10", "map ins 0 2 20", "map ins 0 3 30", "map erase 0 3", "map ins 0 7 70",
@@ -166,10 +176,15 @@ CORPUS = [
     ("map", ["map ins 0 %d %d" % (100 + 2 * i, i) for i in range(190)] + ["map find 0 180", "map erase 0 274", "map find 0 476"]),
     ("set", ["set ins 0 %d" % (100 + 2 * i) for i in range(190)] + ["set count 0 180", "set erase 0 274", "set count 0 476"]),
     ("map", ["arith 3000000"]),
+    ("sc", ["sc new 1", "sc get 0", "sc get 1", "sc get 2", "sc get 3", "sc release 0", "sc release 1", "sc release 2", "sc release 3",
+            "sc get 4", "sc get 5", "sc get 6", "sc reset", "sc get 0", "sc clear", "sc get 1"]),
     ("cmp", ["cmp compare 97.98 97.98", "cmp compare 97.98 97.98.0.99", "cmp comparesub 97.98.99 0 2 97.98 npos",
              "cmp eqi 65.98 97.66", "cmp cmpi 65.98.99 97.66", "cmp cmpi 97 66", "cmp equals - -"]),
     ("oc", ["oc get 0", "oc put 0 5", "oc get 1", "oc release 0", "oc get 2", "oc put 2 7", "oc release 1", "oc release 2", "oc get 0",
             "oc get 3"]),
+    # keys with embedded U+0000 through both overloads: "ab", "ab\0c", "ab\0d" are three strings
+    ("pool", ["pool new 0 3", "pool gets 0 97.98", "pool gets 0 97.98.0.99", "pool gets 0 97.98.0.100", "pool get 0 97.98.0.99",
+              "pool gets 0 97.98", "pool get 0 97.98.0", "pool gets 0 97.98.0"]),
     ("pool", ["pool new 0 3", "pool get 0 1.2", "pool get 0 2.1", "pool get 0 1.2", "pool get 0 -", "pool get 0 7", "pool get 0 1.2.3",
               "pool clear 0", "pool get 0 2.1"]),
     ("bmp", ["bmp new 0 17", "bmp set 0 0", "bmp set 0 7", "bmp set 0 8", "bmp set 0 16", "bmp toggle 0 7", "bmp clear 0 8",
@@ -311,6 +326,9 @@ def features(kind, mlines):
                 f.add("spare-capacity")
     elif kind == "vec":
         f.add("vec")
+    elif kind == "sc":
+        if any(l.startswith("r=") and not l.startswith("r=0") and not l.startswith("r=1 ") and l != "r=1" for l in mlines):
+            f.add("string-recycled")
     elif kind == "cmp":
         if any(l.startswith("r=0") for l in mlines) and any(l.startswith("r=-1") or l.startswith("r=1") for l in mlines):
             f.add("equal-and-unequal")
@@ -345,14 +363,14 @@ class Runner:
                                           extra=["-DNDEBUG"]) if with_string else None
 
     def harness(self, kind):
-        return self.h_str if kind in ("str", "bmp", "pool", "cmp") else self.h_cont
+        return self.h_str if kind in ("str", "bmp", "pool", "cmp", "sc") else self.h_cont
 
     elem = False   # which element type the container streams currently use (toggled by run(ctx))
 
     def run(self, kind, seqs, tag, elem=None):
         if elem is None:
             elem = self.elem and kind in ("vec", "map", "deq", "lst")
-        env = {"ASAN_OPTIONS": "detect_leaks=0:abort_on_error=0"} if kind in ("str", "bmp", "pool", "cmp") else None
+        env = {"ASAN_OPTIONS": "detect_leaks=0:abort_on_error=0"} if kind in ("str", "bmp", "pool", "cmp", "sc") else None
         if elem:
             return run_stream(self.h_elem, self.model, seqs, self.work, tag + "_elem", env,
                               timeout=(900 if self.ctx.thorough else 30) if len(seqs) > 1 else 3)
@@ -480,6 +498,7 @@ def run(ctx):
         "bmp": (300, 40) if not T else (4000, 120),
         "oc": (300, 40) if not T else (4000, 120),
         "cmp": (300, 40) if not T else (4000, 100),
+        "sc": (300, 50) if not T else (4000, 150),
         "pool": (400, 60) if not T else (5000, 200),
     }
     gens = {
@@ -492,7 +511,8 @@ def run(ctx):
         "bmp": lambda: G.gen_bmp(r, plan["bmp"][1]),
         "oc": lambda: G.gen_oc(r, plan["oc"][1]),
         "cmp": lambda: G.gen_cmp(r, plan["cmp"][1]),
-        "pool": lambda: G.gen_pool(r, plan["pool"][1]),
+        "sc": lambda: G.gen_sc(r, plan["sc"][1]),
+        "pool": lambda: G.gen_pool(r, plan["pool"][1], leading=(nbox[0] % 8 == 0)),
         "str": lambda: G.gen_str(r, plan["str"][1], defects=(nbox[0] % 5 == 0 and nbox[0] < 1500)),
     }
     big_box = [False]
@@ -503,9 +523,9 @@ def run(ctx):
     agree = [True]
     unrun = [0]
     total_leak = 0
-    kinds = ["vec", "map", "set", "deq", "lst", "oc", "str", "bmp", "pool", "cmp"]
+    kinds = ["vec", "map", "set", "deq", "lst", "oc", "str", "bmp", "pool", "cmp", "sc"]
     if nolib:
-        kinds.remove("str"); kinds.remove("bmp"); kinds.remove("pool"); kinds.remove("cmp")
+        kinds.remove("str"); kinds.remove("bmp"); kinds.remove("pool"); kinds.remove("cmp"); kinds.remove("sc")
         ctx.oblige("XalanDOMString correspondence was run (VERIF_C20_NOLIB unset)", "correspondence", False,
                    "VERIF_C20_NOLIB=1 is for mutation trials only")
     for kind in kinds:
